@@ -31,7 +31,7 @@ def make_oracles():
     return [physprop.Confined(), physprop.NewObjectGuard(layout_of), physprop.OthersStayValid()]
 
 
-HOSTILE_CDIRS = ["../../../../../../victim", "../outside", "a/b", "..", ".", "/abs-cdir", "x/../../..", "content/../../../..", "c/./d"]
+HOSTILE_CDIRS = ["../" * 8 + "victim", "content/" + "../" * 9 + "escaped/deep", "../" * 7 + "v", "../outside", "a/b", "..", ".", "x/../../..", "c/./d"]
 TAMPER_BUDGET = {"quick": dict(cases=5, seconds=40), "thorough": dict(cases=80, seconds=600)}
 
 
